@@ -330,10 +330,26 @@ def rows_c12(d, rng):
     return rows
 
 
+def gate_c12(d):
+    """the same float declaration without `finite`: Eq/Ord must then be refused (NaN would be obtainable)."""
+    import copy
+    if d["fam"] != "float" or not ({"Eq", "Ord"} & set(d["traits"])) or d.get("const_fn"):
+        return None
+    if not any(r["k"] == "finite" for r in d["val"]) or d["vmode"] != "std":
+        return None
+    g = copy.deepcopy({k: v for k, v in d.items() if k != "_phi"})
+    g["id"] = d["id"] + "_g"
+    g["val"] = [r for r in g["val"] if r["k"] != "finite"]
+    if not g["val"]:
+        g["vmode"] = "none"
+    g["minimal_driver"] = True
+    return g
+
+
 def check_C12():
     q = tier() == "quick"
     sizes = {"float": 90} if q else {"float": 600}
-    return run_direct_property("C12", None, sizes, 0, True, rows_fn=rows_c12, fams=("float",), mc_suffix="c12", sweeps=True, const_twins=True,
+    return run_direct_property("C12", None, sizes, 0, True, rows_fn=rows_c12, fams=("float",), mc_suffix="c12", sweeps=True, const_twins=True, gate_fn=gate_c12,
                                extra_must=lambda ad: any(t == "Ord" for t in ad["traits"]) and len(ad["val"]) <= 2,
                                evidence_extra={"slice": "f32/f64 declarations with finite (+ optional bounds, every order) deriving PartialEq, Eq, PartialOrd, Ord; "
                                                "every entry point (constructor, TryFrom, FromStr, Deserialize in RON/MessagePack carrying NaN/inf, Default with a NaN default) "
